@@ -21,6 +21,10 @@ Definition rampI (k : int) : list N := rampN (Z.to_nat (Uint63.to_Z k)).
 (** a NodeHost as the executor builds it: address, region, last tick, hosted shard ids *)
 Definition mkH (a r t : N) (ss : list N) : hostspec := mkHost a 0 r t [] (list_to_set ss).
 
+(** the same with leftover persistent-log records (shard, replica) *)
+Definition mkHp (a r t : N) (ss : list N) (pl : list (N * N)) : hostspec := mkHost a 0 r t pl (list_to_set ss).
+Definition pl (l : list (int * int)) : list (N * N) := map (fun p => (n (fst p), n (snd p))) l.
+
 Definition nl_eqb := list_eqb N.eqb.
 
 Definition rtype_eqb (a b : rtype) : bool :=
@@ -155,6 +159,9 @@ Definition vcase (q : request) (obs : bool) : bool := Bool.eqb (validate_request
 
 (** same as a code: 0 = agree, 2 = disagree *)
 Definition vcode (q : request) (obs : bool) : N := if vcase q obs then 0 else 2.
+
+(** validateRegions case: verdict of the model = observed verdict *)
+Definition rcode (regs : option regions) (obs : bool) : N := if Bool.eqb (validate_regions regs) obs then 0 else 2.
 
 (** shorthand for an observed launch request *)
 Definition lreq (sid : N) (members : list N) (ccid : N) (rids addrs : list N) (inst raft : N)
